@@ -1,4 +1,4 @@
-(* C08 model runner: reads the harness' result line (dump + per input `IN`, and with recovery
+(* C08 model runner: reads the harness' result line (dump + per input `IN` [+ `FM` faulty mask], and with recovery
    the `EA` lines whose applied repair sequences are replayed), runs the mirror of today's
    code and the mirror of the repaired code, prints logs in the harness' format:
      # V wf= S=   then per input   # IN …  # OA … # L …* # EA …*   # FOA … # FL …* *)
@@ -25,9 +25,12 @@ let pp_res b otag ltag etag (r : pres outcome) =
         Buffer.add_string b (Printf.sprintf " # %s %d:%d:%d %d" etag (int_of_n l.lx_tok) (int_of_nat l.lx_start)
                                (int_of_nat l.lx_end) (int_of_n st))) r.r_errs
 
-let rec triples = function
+(* the `FM` section (one digit per lexeme, absent = none) carries the faulty flags of LEXER-SUPPLIED faulty lexemes: the
+   model only copies the flag into the logged arguments, nothing it computes depends on it *)
+let rec triples (fm : string) (i : int) = function
   | t :: s :: e :: rest ->
-      { lx_tok = n_of_int (ios t); lx_start = nat_of_int (ios s); lx_end = nat_of_int (ios e); lx_faulty = false } :: triples rest
+      { lx_tok = n_of_int (ios t); lx_start = nat_of_int (ios s); lx_end = nat_of_int (ios e);
+        lx_faulty = (i < String.length fm && fm.[i] = '1') } :: triples fm (i + 1) rest
   | _ -> []
 
 let repair_of (w : string) : repair =
@@ -48,15 +51,16 @@ let () =
     let groups = ref [] in
     List.iter (fun sec ->
       match sec with
-      | "IN" :: ws -> groups := (ws, ref []) :: !groups
+      | "IN" :: ws -> groups := (ws, ref [], ref "") :: !groups
+      | "FM" :: m :: _ -> (match !groups with (_, _, fm) :: _ -> fm := m | [] -> ())
       | "EA" :: _ :: _ :: nrep :: rs ->
           (match !groups with
-           | (_, eas) :: _ -> eas := (if ios nrep = 0 then None else Some (List.map repair_of rs)) :: !eas
+           | (_, eas, _) :: _ -> eas := (if ios nrep = 0 then None else Some (List.map repair_of rs)) :: !eas
            | [] -> ())
       | _ -> ()) secs;
     let magic = nat_of_int 77 in
-    List.iter (fun (ws, eas) ->
-      let lexemes = triples ws in
+    List.iter (fun (ws, eas, fm) ->
+      let lexemes = triples !fm 0 ws in
       let oracle = List.rev !eas in
       let fuel = nat_of_int (400 + 60 * (List.length lexemes + 2) * (List.length g.prods + 2)) in
       Buffer.add_string b " # IN";
